@@ -15,6 +15,7 @@
 #include <cerrno>
 #include <thread>
 #include <unordered_map>
+#include <unordered_set>
 #include <chrono>
 #include <mutex>
 #include <condition_variable>
@@ -41,6 +42,8 @@ struct VThread {
 	sem_t sem;
 	bool timedOut;
 	bool spurious;
+	uint64_t obs;          // hash of everything this thread observed from shared state since its current operation began
+	int opIndex;
 	long spinStamp;
 	VClock vc;
 	std::function<void()> body;
@@ -74,6 +77,14 @@ public:
 	DeadlockInfo deadlock;
 	bool horizonHit;
 	int preemptions;
+	// stateful exploration: visited global states (hash supplied by the harness) prune the DFS; sound only for oracles that are
+	// functions of the state, and only with an unbounded budget (every alternative of a first visit is explored)
+	bool stateful;
+	std::function<void(uint64_t &, uint64_t &)> stateHash;
+	std::unordered_set<uint64_t> * visitedA; std::unordered_set<uint64_t> * visitedB;
+	bool pruned;
+	bool quiet;             // after a prune: no new choices, defaults only
+	long prunedCount;
 	int spuriousBudget;      // >0: a thread parked in an untimed condition wait may be woken without a notify (each is a deviation of cost 1)
 	int spuriousUsed;
 	// happens-before race detection on annotated locations
@@ -83,7 +94,7 @@ public:
 	std::vector<std::pair<const char *, const char *> > sharedRanges;
 	bool raceDetection;
 
-	Sched() : active(false), aborting(false), cur(0), steps(0), progress(0), maxSteps(4000), horizonHit(false), preemptions(0), spuriousBudget(0), spuriousUsed(0), raceDetection(true) {}
+	Sched() : active(false), aborting(false), cur(0), steps(0), progress(0), maxSteps(4000), horizonHit(false), preemptions(0), stateful(false), visitedA(nullptr), visitedB(nullptr), pruned(false), quiet(false), prunedCount(0), spuriousBudget(0), spuriousUsed(0), raceDetection(true) {}
 
 	static VThread *& me() { static thread_local VThread * t = nullptr; return t; }
 
@@ -97,10 +108,10 @@ public:
 	void begin() {
 		for(size_t i = 0; i < threads.size(); ++i) { sem_destroy(&threads[i]->sem); delete threads[i]; }
 		threads.clear(); locs.clear(); spinClocks.clear(); sharedRanges.clear();
-		active = true; aborting = false; steps = 0; progress = 0; horizonHit = false; preemptions = 0; spuriousUsed = 0;
+		active = true; aborting = false; steps = 0; progress = 0; horizonHit = false; preemptions = 0; spuriousUsed = 0; pruned = false; quiet = false;
 		deadlock = DeadlockInfo();
 		VThread * t0 = new VThread();
-		t0->id = 0; t0->st = T_RUNNABLE; t0->waitObj = nullptr; t0->timedOut = false; t0->spurious = false; t0->spinStamp = -1; t0->lastTag = "";
+		t0->id = 0; t0->st = T_RUNNABLE; t0->waitObj = nullptr; t0->timedOut = false; t0->spurious = false; t0->obs = 0; t0->opIndex = 0; t0->spinStamp = -1; t0->lastTag = "";
 		sem_init(&t0->sem, 0, 0);
 		threads.push_back(t0);
 		me() = t0; cur = 0;
@@ -110,7 +121,7 @@ public:
 		VThread * t = new VThread();
 		t->id = (int)threads.size();
 		if(t->id >= MAXT) { fprintf(stderr, "too many threads\n"); abort(); }
-		t->st = T_RUNNABLE; t->waitObj = nullptr; t->timedOut = false; t->spurious = false; t->spinStamp = -1; t->lastTag = "";
+		t->st = T_RUNNABLE; t->waitObj = nullptr; t->timedOut = false; t->spurious = false; t->obs = 0; t->opIndex = 0; t->spinStamp = -1; t->lastTag = "";
 		t->body = body;
 		sem_init(&t->sem, 0, 0);
 		VThread * parent = me();
@@ -153,6 +164,7 @@ public:
 		if(!m) return;
 		m->st = T_RUNNABLE;
 		++progress;
+		m->obs = mix64(m->obs, (uint64_t)(uintptr_t)tag);
 		switchFrom(m, tag);
 	}
 
@@ -190,6 +202,14 @@ public:
 		else { l.reads.c[m->id] = m->vc.c[m->id]; }
 	}
 	void tick() { VThread * m = me(); if(m) m->vc.c[m->id]++; }
+	// what a thread learns from shared state; together with the operation index it determines the thread's local state
+	void observe(uint64_t v) { VThread * m = me(); if(m && active) m->obs = mix64(m->obs, v); }
+	void opBegin(int index) { VThread * m = me(); if(m) { m->opIndex = index; m->obs = 0x9e3779b97f4a7c15ULL; } }
+	uint64_t threadsHash() const {
+		uint64_t h = 7;
+		for(size_t i = 0; i < threads.size(); ++i) { const VThread * t = threads[i]; h = mix64(h, (uint64_t)t->st * 131 + (t->timedOut ? 7 : 0) + (t->spurious ? 3 : 0)); h = mix64(h, (uint64_t)t->opIndex); h = mix64(h, t->st == T_DONE ? 0 : t->obs); }
+		return h;
+	}
 };
 
 inline Sched & sched() { static Sched s; return s; }
@@ -273,7 +293,19 @@ inline void Sched::switchFrom(VThread * m, const char * tag) {
 	else if(plain > 0) freeUpTo = plain;           // free choice among runnable threads; firing a timeout while something can run is a deviation
 	else freeUpTo = n;                             // only timeouts left: time passes
 	if(freeUpTo > realOptions) freeUpTo = realOptions;
-	int pick = gctx()->ex.choose(n, freeUpTo, K_SCHED);
+	if(stateful && !quiet && n > 1 && gctx()->ex.atFrontier() && stateHash) {
+		uint64_t ha = 0, hb = 0;
+		stateHash(ha, hb);
+		ha = mix64(ha, (uint64_t)m->id); hb = mix64(hb, (uint64_t)m->id * 977 + 5);   // who is asking matters for the menu order only, kept for simplicity
+		bool seenA = !visitedA->insert(ha).second, seenB = !visitedB->insert(hb).second;
+		if(seenA && seenB) {
+			// This global state was expanded before: every continuation from here is, or will be, explored from that visit.
+			// The execution is not torn down by exceptions (parked threads may sit inside destructors or noexcept operations);
+			// it simply runs to its end on default choices without opening new branches, and its outcome is not judged again.
+			pruned = true; quiet = true; ++prunedCount;
+		}
+	}
+	int pick = quiet ? 0 : gctx()->ex.choose(n, freeUpTo, K_SCHED);
 	if(pick >= freeUpTo) ++preemptions;
 	VThread * next = opts[pick];
 	if(isTimeout[pick]) next->timedOut = true;
@@ -330,6 +362,7 @@ struct VMutex {
 		s.switchFrom(m, "mutex.lock");
 		owner = m->id; m->st = T_RUNNABLE;
 		m->vc.join(vc);
+		s.observe(0x4c4f434bULL);
 	}
 	bool try_lock() {
 		Sched & s = sched();
@@ -359,11 +392,11 @@ struct VAtomic {
 	void acq() const { VThread * m = Sched::me(); if(m && sched().active) m->vc.join(vc); }
 	void rel() { VThread * m = Sched::me(); if(m && sched().active) { vc.join(m->vc); m->vc.c[m->id]++; } }
 
-	void store(T d, std::memory_order = std::memory_order_seq_cst) noexcept { pre("atomic.store"); value = d; rel(); }
-	T load(std::memory_order = std::memory_order_seq_cst) const noexcept { pre("atomic.load"); acq(); return value; }
-	T exchange(T d, std::memory_order = std::memory_order_seq_cst) noexcept { pre("atomic.exchange"); acq(); T p = value; value = d; rel(); return p; }
-	T operator++() noexcept { pre("atomic.inc"); acq(); T r = ++value; rel(); return r; }
-	T operator--() noexcept { pre("atomic.dec"); acq(); T r = --value; rel(); return r; }
+	void store(T d, std::memory_order = std::memory_order_seq_cst) noexcept { pre("atomic.store"); value = d; rel(); sched().observe(5); }
+	T load(std::memory_order = std::memory_order_seq_cst) const noexcept { pre("atomic.load"); acq(); sched().observe((uint64_t)value * 31 + 1); return value; }
+	T exchange(T d, std::memory_order = std::memory_order_seq_cst) noexcept { pre("atomic.exchange"); acq(); T p = value; value = d; rel(); sched().observe((uint64_t)p * 31 + 2); return p; }
+	T operator++() noexcept { pre("atomic.inc"); acq(); T r = ++value; rel(); sched().observe((uint64_t)r * 31 + 3); return r; }
+	T operator--() noexcept { pre("atomic.dec"); acq(); T r = --value; rel(); sched().observe((uint64_t)r * 31 + 4); return r; }
 	T operator=(T d) noexcept { store(d); return d; }
 	operator T() const noexcept { return load(); }
 };
@@ -380,7 +413,7 @@ struct VCondVar {
 		s.point("cv.notify_one");
 		++notifies;
 		if(waiters.empty()) return;
-		int w = gctx()->ex.choose((int)waiters.size(), (int)waiters.size(), K_ENV);
+		int w = s.quiet ? 0 : gctx()->ex.choose((int)waiters.size(), (int)waiters.size(), K_ENV);
 		VThread * t = waiters[w];
 		waiters.erase(waiters.begin() + w);
 		t->st = T_WAIT_MUTEX;     // waitObj already points at the mutex owner field
@@ -421,6 +454,7 @@ struct VCondVar {
 		if(to || m->spurious) { for(size_t i = 0; i < waiters.size(); ++i) if(waiters[i] == m) { waiters.erase(waiters.begin() + i); break; } }
 		m->spurious = false;
 		mx->owner = m->id; m->st = T_RUNNABLE; m->vc.join(mx->vc);
+		s.observe(to ? 0x544fULL : 0x4e4fULL);
 		return to;
 	}
 
@@ -463,9 +497,13 @@ struct VThreading {
 };
 
 // ---- QueueList policy: std::list with scheduling points and race detection on shared instances
+template <typename T> struct VListItemHash { static uint64_t of(const T &) { return 1; } };   // specialise to expose element identity
+
 template <typename T>
 class VList {
 	std::list<T> l;
+	uint64_t contentHash() const { uint64_t h = 11; for(const T & x : l) h = mix64(h, VListItemHash<T>::of(x)); return h; }
+	void obs(uint64_t v) const { if(sched().active) sched().observe(v); }
 	bool sh() const { return sched().active && sched().isShared(this); }
 	void rd(const char * tag) const { if(sh()) { sched().point(tag); sched().access(this, false, tag); } }
 	void wr(const char * tag) { if(sh()) { sched().point(tag); sched().access(this, true, tag); } }
@@ -475,23 +513,24 @@ public:
 	using const_iterator = typename std::list<T>::const_iterator;
 	using value_type = T;
 	VList() {}
-	VList(VList && o) noexcept : l() { o.wr("list.move-from"); l = std::move(o.l); }
+	VList(VList && o) noexcept : l() { o.wr("list.move-from"); if(o.sh()) obs(o.contentHash()); l = std::move(o.l); }
 	VList & operator=(VList && o) noexcept { wr("list.move-assign"); o.wrNoPoint("list.move-from"); l = std::move(o.l); return *this; }
 	VList(const VList &) = delete;
 	VList & operator=(const VList &) = delete;
 	// the documented deliberate unlocked read: a point, but not a race candidate
-	bool empty() const { if(sh()) sched().point("list.empty"); return l.empty(); }
+	bool empty() const { if(sh()) sched().point("list.empty"); if(sh()) obs(l.empty() ? 0x45ULL : 0x4eULL); return l.empty(); }
 	iterator begin() { rd("list.begin"); return l.begin(); }
 	iterator end() { return l.end(); }
 	const_iterator begin() const { rd("list.begin"); return l.begin(); }
 	const_iterator end() const { return l.end(); }
-	T & front() { rd("list.front"); return l.front(); }
-	const T & front() const { rd("list.front"); return l.front(); }
+	T & front() { rd("list.front"); if(sh()) obs(VListItemHash<T>::of(l.front())); return l.front(); }
+	const T & front() const { rd("list.front"); if(sh()) obs(VListItemHash<T>::of(l.front())); return l.front(); }
 	template <typename ...A> void emplace_back(A && ...a) { wr("list.emplace_back"); l.emplace_back(std::forward<A>(a)...); }
 	void splice(const_iterator pos, VList & other) { wr("list.splice"); other.wrNoPoint("list.splice-from"); l.splice(pos, other.l); }
-	void splice(const_iterator pos, VList & other, const_iterator it) { wr("list.splice1"); other.wrNoPoint("list.splice1-from"); l.splice(pos, other.l, it); }
+	void splice(const_iterator pos, VList & other, const_iterator it) { wr("list.splice1"); other.wrNoPoint("list.splice1-from"); if(other.sh()) obs(VListItemHash<T>::of(*it)); l.splice(pos, other.l, it); }
 	void swap(VList & o) { wr("list.swap"); o.wrNoPoint("list.swap"); l.swap(o.l); }
 	size_t rawSize() const { return l.size(); }
+	uint64_t rawContentHash() const { return contentHash(); }
 	const std::list<T> & raw() const { return l; }
 };
 
